@@ -305,7 +305,7 @@ func coherent(d rscp.DataType) (why string) {
 			why = fmt.Sprintf("panic: %v", r)
 		}
 	}()
-	for _, in := range coherentInputs(d) {
+	for inIdx, in := range coherentInputs(d) {
 		v, err := rscp.VerifNew(d, in)
 		if err != nil {
 			if _, isStr := in.(string); !isStr && d == rscp.ByteArray {
@@ -332,6 +332,30 @@ func coherent(d rscp.DataType) (why string) {
 		}
 		if goKind(rscp.VerifNewEmpty(d, 3)) != goKind(v) {
 			return fmt.Sprintf("decoder allocates %s, constructor returns %s", goKind(rscp.VerifNewEmpty(d, 3)), goKind(v))
+		}
+		// a message object that names its data type explicitly is read with that data type — under a tag without a
+		// declared type, under an unknown tag and under tags that declare another type
+		if inIdx == 0 {
+			val := map[rscp.DataType]string{rscp.None: "", rscp.Bool: "true", rscp.CString: `"x"`, rscp.ByteArray: "[1,2]", rscp.Timestamp: `"2024-01-02T03:04:05Z"`,
+				rscp.Container: "[]", rscp.Error: "7", rscp.Float32: "1.5", rscp.Double64: "1.5"}
+			lit, ok := val[d]
+			if !ok {
+				lit = "1"
+			}
+			for _, tg := range []string{"8388609", `"2139169605"`, `"EMS_POWER_PV"`, `"INFO_SERIAL_NUMBER"`, `"BAT_DATA"`, `"RSCP_GENERAL_ERROR"`} {
+				js := `{"Tag":` + tg + `,"DataType":"` + d.String() + `"`
+				if lit != "" {
+					js += `,"Value":` + lit
+				}
+				js += "}"
+				var back rscp.Message
+				if err := json.Unmarshal([]byte(js), &back); err != nil {
+					continue // refusing is fine; reading it as something else is not
+				}
+				if back.DataType != d {
+					return fmt.Sprintf("the message object %s is read with data type %s", js, back.DataType)
+				}
+			}
 		}
 		first := rscp.Message{Tag: 0x00800002, DataType: rscp.UChar8, Value: uint8(9)}
 		for _, ms := range [][]rscp.Message{{m}, {first, m}, {{Tag: 0x00800003, DataType: rscp.Container, Value: []rscp.Message{first, m}}}} {
